@@ -473,7 +473,7 @@ pub fn literal_sizes(ctx: &Ctx, name: &str, st: &mut Local, f: mutspace::BSink) 
         return;
     }
     let sizes: &[usize] = if ctx.quick() {
-        &[0, 1, 127, 128, 16383, 16384, 65535, 65536, 65537, 70000]
+        &[0, 1, 127, 128, 16383, 16384, 65535, 65536, 65537, 70000, 2097151, 2097152]
     } else {
         &[0, 1, 2, 127, 128, 129, 16383, 16384, 16385, 65535, 65536, 65537, 70000, 131072, 131073, 2097151, 2097152]
     };
@@ -496,6 +496,53 @@ pub fn literal_sizes(ctx: &Ctx, name: &str, st: &mut Local, f: mutspace::BSink) 
     e.exhaustive = true;
 }
 
+/// files with large embedded streams (plaintext / correction length varints, several chunks)
+pub fn big_wrapped(ctx: &Ctx, name: &str, st: &mut Local, f: mutspace::BSink) {
+    if !ctx.engine_on(name) {
+        return;
+    }
+    let specs: Vec<(usize, usize, comp::Comp)> = if ctx.quick() {
+        vec![(8, 20_000, comp::Comp::Zlib(6, 0, 15, 8)), (1, 140_000, comp::Comp::Zlib(1, 0, 15, 8)), (8, 70_000, comp::Comp::Libdeflate(6))]
+    } else {
+        vec![(8, 20_000, comp::Comp::Zlib(6, 0, 15, 8)), (1, 140_000, comp::Comp::Zlib(1, 0, 15, 8)), (8, 70_000, comp::Comp::Libdeflate(6)),
+            (8, 300_000, comp::Comp::Zlib(9, 0, 15, 9)), (2, 2_200_000, comp::Comp::Zlib(6, 0, 15, 8)), (3, 200_000, comp::Comp::Miniz(6)), (4, 70_000, comp::Comp::Zlib(0, 0, 15, 8))]
+    };
+    let mut idx = 0;
+    for (k, n, c) in specs {
+        for wrapper in 0..3 {
+            let i = idx;
+            idx += 1;
+            count(ctx, name, st, i, true);
+            if !ctx.take(name, i) {
+                continue;
+            }
+            let p = text_family(k, n);
+            let s = match c.run(&p) {
+                Some(s) => s,
+                None => continue,
+            };
+            let mut file = b"leading literal bytes".to_vec();
+            match wrapper {
+                0 => file.extend_from_slice(&crate::wrap::zlib_wrap([0x78, 0x9c], &s, &p)),
+                1 => file.extend_from_slice(&crate::wrap::gzip_wrap(&crate::wrap::GzOpts { name: Some(b"big.txt".to_vec()), method: 8, ..Default::default() }, &s, &p)),
+                _ => {
+                    let z = crate::wrap::zlib_wrap([0x78, 0xda], &s, &p);
+                    let splits: Vec<usize> = (1..z.len() / 8192 + 1).map(|j| j * 8192).collect();
+                    file.extend_from_slice(&crate::wrap::png_wrap(&z, &splits, true));
+                }
+            }
+            file.extend_from_slice(&text_family(4, 300));
+            st.sample(name, || format!("#{} {} bytes: text{}/{} via {:?} wrapper {}", i, file.len(), k, n, c, wrapper));
+            ctx.begin(name, i, 300_000);
+            f(st, name, i, &file);
+            ctx.end();
+        }
+    }
+    let e = st.eng(name);
+    e.bound = "large embedded streams (20 KB - 2.2 MB of plaintext) behind zlib, gzip and multi-chunk PNG wrappers, surrounded by literal data".into();
+    e.exhaustive = true;
+}
+
 pub fn run_c01(ctx: &Ctx, st: &mut Local) {
     let cfg = if ctx.quick() {
         E9Cfg { full_wrappers: false, junk_pre: vec![0, 3, 6, 11], junk_post: vec![0, 1, 8], odd: true, depth2: true, only_supported: false }
@@ -512,6 +559,7 @@ pub fn run_c01(ctx: &Ctx, st: &mut Local) {
     e8_file_mutants(ctx, "E8f", st, &mut g);
     e8_png_mutants(ctx, "E8png", st, &mut g);
     literal_sizes(ctx, "Sizes", st, &mut g);
+    big_wrapped(ctx, "BigFiles", st, &mut g);
     mutspace::e7_bytespace(ctx, "E7", if ctx.quick() { 2 } else { 3 }, st, &mut g);
     if !ctx.quick() {
         let mut h = |st: &mut Local, eng: &str, i: u64, b: &[u8]| {
@@ -1300,7 +1348,7 @@ pub fn run_c13(ctx: &Ctx, st: &mut Local) {
             scripts.push(sc);
         }
         // pairs of deviations
-        if cont.len() <= if ctx.quick() { 1400 } else { 6000 } {
+        if cont.len() <= if ctx.quick() { 2400 } else { 6000 } {
             for a in 0..singles.len() {
                 for b in a + 1..singles.len() {
                     let mut sc = IoScript::default();
@@ -1352,7 +1400,7 @@ pub fn run_c13(ctx: &Ctx, st: &mut Local) {
     let e = st.eng(name);
     e.bound = format!(
         "{} containers; per container: the default environment, 36 uniform fragmentation policies (reads <= k, writes <= m; k, m in 1,2,3,7,8,inf), every single deviation (short read/partial write of 1 and of 5 bytes, errors Other/UnexpectedEof/Interrupted/WriteZero) at every read and write call, every pair of deviations for containers <= {} bytes, a one-shot error (Other, Interrupted) at every source byte offset and every destination byte offset (large containers: first/last 64 offsets and every 97th); {} environment scripts in total",
-        files.len(), if ctx.quick() { 1400 } else { 6000 }, total_scripts
+        files.len(), if ctx.quick() { 2400 } else { 6000 }, total_scripts
     );
     e.exhaustive = true;
 }
